@@ -21,9 +21,9 @@ been rebuilt once, is not rebuilt again for a later dependent). -/
 theorem memoised_clean (R n : Nat) (w : World) (c : List Nat) (f mx ch : Nat) (seen : List Nat)
     (hs : f ∉ seen) (hf : (getRec w R f).failed = none) (hc : (getRec w R f).changed = some ch)
     (hle : ch ≤ mx) (hck : isCheckedR (getRec w R f) R = true) :
-    isDirty false R (n + 1) w c f mx seen = (.clean, w, c) := by
+    isDirty false R (n + 1) w c f mx seen none = (.clean, w, c) := by
   have : ¬ ch > mx := by omega
-  simp (config := { zeta := true, zetaHave := true }) only [isDirty, hs, hf, hc, this, hck, if_true, if_false,
+  simp (config := { zeta := true, zetaHave := true }) only [isDirty, Option.getD_none, hs, hf, hc, this, hck, if_true, if_false,
     Option.isSome_none, Bool.false_eq_true]
 
 /-- A file built (or changed) more recently than its dependent's last build/check makes the
@@ -31,15 +31,15 @@ dependent dirty. -/
 theorem newer_is_dirty (ood : Bool) (R n : Nat) (w : World) (c : List Nat) (f mx ch : Nat) (seen : List Nat)
     (hs : f ∉ seen) (hf : (getRec w R f).failed = none) (hc : (getRec w R f).changed = some ch)
     (hgt : ch > mx) :
-    isDirty ood R (n + 1) w c f mx seen = (.dirty, w, c) := by
-  simp (config := { zeta := true, zetaHave := true }) only [isDirty, hs, hf, hc, hgt, if_true, if_false,
+    isDirty ood R (n + 1) w c f mx seen none = (.dirty, w, c) := by
+  simp (config := { zeta := true, zetaHave := true }) only [isDirty, Option.getD_none, hs, hf, hc, hgt, if_true, if_false,
     Option.isSome_none, Bool.false_eq_true]
 
 /-- A never-built file is dirty. -/
 theorem never_built_is_dirty (ood : Bool) (R n : Nat) (w : World) (c : List Nat) (f mx : Nat) (seen : List Nat)
     (hs : f ∉ seen) (hf : (getRec w R f).failed = none) (hc : (getRec w R f).changed = none) :
-    isDirty ood R (n + 1) w c f mx seen = (.dirty, w, c) := by
-  simp (config := { zeta := true, zetaHave := true }) only [isDirty, hs, hf, hc, if_false,
+    isDirty ood R (n + 1) w c f mx seen none = (.dirty, w, c) := by
+  simp (config := { zeta := true, zetaHave := true }) only [isDirty, Option.getD_none, hs, hf, hc, if_false,
     Option.isSome_none, Bool.false_eq_true]
 
 /-- `zap_deps2` removes exactly the rows of the target that were not re-declared. -/
